@@ -1568,7 +1568,11 @@ where
                             pending_writes.push(do_write(tx, false));
                             true
                         }
-                        _ => false,
+                        _ => {
+                            // Nothing was written: the writer is still needed for later events.
+                            item_writers.insert(*id, tx);
+                            false
+                        }
                     }
                 } else {
                     true
